@@ -246,10 +246,10 @@ CONFIG = {
                 keys=["panic", "err", "exec", "set"], transform=common.hide_help, oracle=combine(oracle_c09, oracle_c06), theorems="C06_*"),
     "C07": dict(profile=dict(p_ev_unknown=0.3, p_wrong_scope=0.3, p_ignore=0.35, p_handler=0.45, p_required=0.02, p_commands=0.6, p_bad_value=0.02,
                              p_namespace=0.8, p_group=0.4, p_ev_cmd=0.2, max_depth=3, p_subopt=0.4, p_sibling_cmd=0.35),
-                keys=["panic", "err", "unknown", "ret", "vals"], transform=common.hide_help, theorems="C07_*", oracle=oracle_c07_handler),
+                keys=["panic", "err", "unknown", "ret", "vals"], transform=common.hide_help, theorems="C07_*", oracle=oracle_c07_handler, n_parses=2),
     "C08": dict(profile=dict(p_mid_attach=0.2, p_commands=0.95, max_depth=3, p_alias=0.6, p_subopt=0.4, p_ev_cmd=0.35, p_required=0.02, p_bad_value=0.02,
                              p_ev_unknown=0.03, n_events=(1, 9), p_positional=0.15, p_sibling_cmd=0.25),
-                keys=["panic", "err", "active", "vals", "ret"], transform=common.hide_help, theorems="C08_*", n_quick=250),
+                keys=["panic", "err", "active", "vals", "ret"], transform=common.hide_help, theorems="C08_*", n_quick=250, n_parses=2),
     "C09": dict(profile=dict(p_addoption=0.08, p_commands=0.95, p_exec=0.9, p_cmdhandler=0.5, p_exec_err=0.3, p_ev_cmd=0.3, p_required=0.15, p_bad_value=0.1,
                              p_ev_unknown=0.08, p_help=0.7, n_events=(1, 8)),
                 keys=["panic", "err", "exec", "ret"], transform=common.hide_help, oracle=oracle_c09, theorems="C09_*", n_quick=400),
@@ -259,10 +259,10 @@ CONFIG = {
     "C11": dict(profile=dict(p_bad_value=0.35, p_base=0.4, p_choice=0.3, p_required=0.01, p_commands=0.15, p_ev_unknown=0.01, p_ev_garbage=0.0,
                              p_ev_opt=0.85, n_events=(1, 5), p_mutate_argv=0.0, p_quoted=0.03,
                              types=[("bool", 3), ("int", 8), ("int8", 8), ("int16", 5), ("int32", 5), ("int64", 6), ("uint", 5), ("uint8", 8), ("uint16", 4),
-                                    ("uint32", 4), ("uint64", 6), ("float32", 9), ("float64", 5), ("string", 3), ("duration", 4), ("custom", 4),
+                                    ("uint32", 4), ("uint64", 6), ("float32", 9), ("float64", 5), ("string", 3), ("duration", 4), ("custom", 4), ("comp", 4),
                                     ("ptr", 8), ("slice", 8), ("map", 8), ("func", 3)]),
                 keys=["panic", "err", "vals", "calls"], transform=common.hide_help, theorems="C11_*"),
-    "C20": dict(profile=dict(p_commands=1.0, p_tagcmd=0.6, n_cmds=(1, 4), p_cmd_hidden=0.3, p_subopt=0.05, p_ev_cmd=0.1, p_ev_plain=0.4, p_required=0.0,
+    "C20": dict(profile=dict(p_mid_hide=0.2, p_commands=1.0, p_tagcmd=0.6, n_cmds=(1, 4), p_cmd_hidden=0.3, p_subopt=0.05, p_ev_cmd=0.1, p_ev_plain=0.4, p_required=0.0,
                              p_positional=0.0, p_bad_value=0.0, p_ev_unknown=0.0, p_ev_garbage=0.02, n_events=(0, 3), n_opts=(0, 2)),
                 keys=["panic", "err"], transform=common.hide_help, theorems="C20_message"),
 }
